@@ -54,7 +54,7 @@ def histories(ctx):
     hs += [f1] * 8   # one per build server / PYTHONHASHSEED: the order flips only for some seeds
     for i in range(ctx.scale(90, 900)):
         spec = engine.gen_spec(rng, nt=(2, 7), after_p=0.45, prodless_p=0.3,
-                               marks=(("try_first", 0.15), ("try_last", 0.15)))
+                               marks=(("try_first", 0.2), ("try_last", 0.2)), marks_below_p=0.5, user_markers=True)
         steps = [["build", {}]]
         if rng.random() < 0.3:
             steps.append(["build", {"force": True}])
